@@ -48,7 +48,7 @@ def run(ctx: Ctx, extended: bool = False) -> None:
     rng = np.random.default_rng(ctx.seed)
     drv = ctx.get_driver()
     steps = (30 if ctx.quick else 150) * (2 if extended else 1)
-    ents = catalog.entries(ctx.tier)
+    ents = catalog.entries('thorough' if extended else ctx.tier) if (extended or not ctx.quick) else catalog.one_per_class(ctx.tier, ctx.seed)
     per_env = {}
     for e in ents:
         for flag in (False, True):
